@@ -386,9 +386,12 @@ PROPS["C10"] = dict(
 
 PROPS["C11"] = dict(
     harness="p_macro",
-    phases=dict(quick=[rc(6, 200), rc(8, 700, flavour="fast", seed_offset=100)], thorough=[rc(8, 6000), rc(8, 50000, flavour="fast", seed_offset=100)]),
+    phases=dict(quick=[dict(kind="enum", shards=4, flavour="fast"), rc(6, 200), rc(8, 700, flavour="fast", seed_offset=100)],
+                thorough=[dict(kind="enum", shards=4, flavour="fast"), rc(8, 6000), rc(8, 50000, flavour="fast", seed_offset=100)]),
     rule=("cases: macro sets biased to self-reproducing / mutually recursive / growing bodies, budgets 1..64 directly on apply_macros, and the "
-          "fixed 1024 through compile() for divergent sets whose stream does not grow. Oracle: the reference expander performs min(budget, "
+          "fixed 1024 through compile() for divergent sets whose stream does not grow; plus six fixed divergent non-growing sets (identity "
+          "rewrites whose every intermediate stream is a valid program, mutual recursion, a runaway macro below a terminating one) at two "
+          "budgets and through compile(). Oracle: the reference expander performs min(budget, "
           "needed) steps; apply_macros(budget) must return exactly that sequence (so at most `budget` steps were taken); if a pattern "
           "still matches afterwards the too-many-substitutions error must be present (it may also be present when exactly `budget` steps "
           "were needed), if fewer steps sufficed it must be absent; through compile() an unfinished expansion yields an incorrect result "
